@@ -84,4 +84,48 @@ def parseUint16 (s : Bytes) : Option UInt16 :=
     | some v => if 48 ≤ c ∧ c ≤ 57 then (let v' := v * 10 + (c.toNat - 48); if v' > 65535 then none else some v') else none) (some 0)
   r.map UInt16.ofNat
 
+/-! ## Host names resolved through a bootstrap server
+
+An upstream whose dial host is a name and that has `Opt.Bootstrap` set holds a
+`bootstrap.Bootstrap`. At dial time the Bootstrap asks the bootstrap server for
+its name and joins the answer with its port. A process creates any number of
+upstreams one after the other; the model keeps the Bootstraps created so far,
+so that "which Bootstrap does upstream number i hold" is a question about the
+whole history. What `bootstrap.New` and `updateAddr` do is read from the source
+(facts `c18BootNewPerCall`, `c18BootAddrOwnPort`); where a fact does not hold
+the model knows nothing and an arbitrary function stands for the code. -/
+
+abbrev dot : UInt8 := 46
+
+/-- `dns.Fqdn` (names without escapes): add the root dot unless it is there -/
+def fqdn (h : Bytes) : Bytes := if h.getLast? = some dot then h else h ++ [dot]
+
+/-- a `bootstrap.Bootstrap`: the name it asks for and the port it appends -/
+structure Boot where
+  fqdn : Bytes
+  port : UInt16
+deriving DecidableEq, Repr
+
+/-- `bootstrap.New(host, port, ..)`, `reg` = the Bootstraps created earlier in
+this process. With `perCall` the call builds its own Bootstrap from its own
+arguments; otherwise `other` (unknown). -/
+def bootNew (perCall : Bool) (other : List Boot → Bytes → UInt16 → Boot)
+    (reg : List Boot) (host : Bytes) (port : UInt16) : Boot :=
+  if perCall then { fqdn := fqdn host, port := port } else other reg host port
+
+/-- The Bootstraps held by the upstreams of one process, created in list
+order from their dial targets (host, port). -/
+def createAll (perCall : Bool) (other : List Boot → Bytes → UInt16 → Boot) :
+    List Boot → List (Bytes × UInt16) → List Boot
+  | _, [] => []
+  | reg, (h, p) :: rest =>
+    let b := bootNew perCall other reg h p
+    b :: createAll perCall other (b :: reg) rest
+
+/-- What a dial through Bootstrap `b` does: (name asked at the bootstrap
+server, port joined to the resolved address). With `ownPort` the port is the
+Bootstrap's own; otherwise `otherPort` (unknown). -/
+def bootDial (ownPort : Bool) (otherPort : Boot → UInt16) (b : Boot) : Bytes × UInt16 :=
+  (b.fqdn, if ownPort then b.port else otherPort b)
+
 end Model.C18
